@@ -165,8 +165,16 @@ func (fx *FnCtx) instr(in ssa.Instruction) {
 		for _, c := range l.comps(P) {
 			if fvs, ok := fx.cellOnly[c]; ok {
 				okAddr := false
+				root := x.Addr
+				for {
+					if fa, ok := root.(*ssa.FieldAddr); ok {
+						root = fa.X
+						continue
+					}
+					break
+				}
 				for _, fv := range fvs {
-					if x.Addr == ssa.Value(fv) {
+					if root == ssa.Value(fv) {
 						okAddr = true
 					}
 				}
